@@ -420,3 +420,96 @@ def srv_expiry_reported_for_every_listing(ctx, P, pre):
            "the walk over the PTR names looks instances up in DnsCache.srv and removes no key from it" if not bad else
            "DnsCache.srv loses keys inside the walk over the PTR names (%s): an instance listed by a type and a subtype is reported "
            "removed to one of the two browsers only" % bad)
+
+
+# ------------------------------------------------------------------------------------------------
+def events_are_lossless(ctx, P, pre, chan_suffix="ServiceEvent", floor=5):
+    """the events of a search are a history the client replays (ServiceFound before ServiceResolved, one ServiceRemoved per
+    withdrawal, SearchStopped last): every send on such a channel is the lossless `send`, never `try_send` /
+    `send_timeout`, which drop the event when the client's bounded channel happens to be full"""
+    n = 0
+    per = {}
+    for f in P.lib_fns():
+        if f.in_tests():
+            continue
+        for em in direct_sends(P, f):
+            if not str(em.chan).endswith(chan_suffix):
+                continue
+            n += 1
+            per[f.name] = per.get(f.name, 0) + 1
+            ctx.ob(pre + ".events-lossless", "%s|send#%d" % (f.name, per[f.name]), em.blocking, f.loc(em.bb),
+                   "%s is delivered with Sender::send (%s)" % (chan_suffix, ", ".join(sorted(x for x in em.names() if isinstance(x, str))[:4]) or "forwarded event") if em.blocking else
+                   "%s sent with %s: the event is dropped when the client's channel is full, and later events of the same instance "
+                   "(ServiceResolved after a lost ServiceFound) arrive without it" % (chan_suffix, method(cname(em.t))))
+    ctx.floor(pre + ".events-lossless", n, floor, "sends on %s channels" % chan_suffix)
+
+
+# ------------------------------------------------------------------------------------------------
+def command_queue_drained(ctx, P, pre):
+    """every API call queues a Command and sends one wake-up datagram; the run loop drains all wake-up datagrams at once
+    (signal_sock_drain), so it must also take every queued command before it goes back to sleep: the loop around
+    `receiver.try_recv()` is left only when try_recv found the queue empty (its Err edge) or on the way out of run
+    (Exit).  A cap on the batch leaves commands queued with nothing left to wake the daemon for them."""
+    run = P.one("Zeroconf::run")
+    tb = [b for b, t in run.calls() if name_matches(cname(t), "Receiver::try_recv") and "Command" in str(t.get("gargs") or t["args"][0])]
+    ctx.require(len(tb) == 1, pre + ".anchor", run.name + "|receiver.try_recv()", run.loc(), "%d try_recv call(s) on the command channel" % len(tb))
+    if len(tb) != 1:
+        return
+    tb = tb[0]
+    loops = run.loops()
+    main = max(loops, key=lambda h: len(loops[h]))
+    inner = [h for h, body in loops.items() if tb in body and h != main]
+    ctx.require(bool(inner), pre + ".anchor", run.name + "|drain loop", run.loc(tb), "try_recv sits in a loop nested in the run loop")
+    if not inner:
+        return
+    h = min(inner, key=lambda x: len(loops[x]))
+    body = loops[h]
+    empty = guard_edges(P, run, lambda atom, outcome, bb: atom[0] == "variant" and any(x[0] == "call" and x[3] == (run.name, tb) for x in walk(atom[1]))
+                        and "Ok" not in outcome and "Some" not in outcome)
+    bad = []
+    for b in sorted(body):
+        t = run.term(b)
+        for s in run.succs(b):
+            if s in body or t.get("unwind") == s:
+                continue
+            if (b, s) in empty:
+                continue
+            # leaving for good: the run loop's head is not reachable any more
+            if main not in run.reachable(s):
+                continue
+            bad.append("%s -> %s" % (run.loc(b), run.loc(s)))
+    ctx.ob(pre + ".command-queue-drained", run.name, bool(empty) and not bad, run.loc(tb),
+           "the drain loop ends only when try_recv reports an empty queue (or run returns)" if not bad else
+           "the drain loop can be left with commands still queued (%s): their wake-up datagrams are already consumed, so an idle daemon "
+           "never executes them — a shutdown() queued behind them never reports" % "; ".join(bad[:3]))
+
+
+# ------------------------------------------------------------------------------------------------
+def status_never_forgotten(ctx, P, pre):
+    """goodbyes (unregister, shutdown) are sent on an interface exactly when the service's status there is Announced: the
+    status may move between Probing and Announced, but is never reset to Unknown while the interface is still in use —
+    the daemon would forget that the records are out and skip their withdrawal.  (A reset that is dominated by the
+    removal of the interface from my_intfs is fine: nothing can be sent there any more.)"""
+    n = 0
+    per = {}
+    for f in P.lib_fns():
+        if f.in_tests():
+            continue
+        tr = None
+        for b, t in f.calls():
+            if not name_matches(cname(t), "ServiceInfo::set_status") or len(t["args"]) < 3:
+                continue
+            tr = tr or tracer(P, f)
+            n += 1
+            per[f.name] = per.get(f.name, 0) + 1
+            vs = {v for (_a, v) in value_variants(tr.operand(t["args"][2], endpos(f, b)))}
+            low = vs - {"Probing", "Announced"}
+            ok = not low
+            if low:
+                rem = [rb for rb, rt in f.calls() if "HashMap" in cname(rt) and method(cname(rt)) in ("remove", "remove_entry") and recv_is_field(P, f, rb, rt, "my_intfs", "Zeroconf")]
+                ok = bool(rem) and any(f.dominates(rb, b) for rb in rem)
+            ctx.ob(pre + ".status-never-forgotten", "%s|set_status#%d" % (f.name, per[f.name]), ok, f.loc(b),
+                   "writes %s" % "/".join(sorted(str(v) for v in vs)) if ok else
+                   "the status of a service on an interface that is still in use is reset to %s: unregister and shutdown send their goodbye "
+                   "only where the status is Announced, so the records announced there are never withdrawn" % "/".join(sorted(str(v) for v in low)))
+    ctx.floor(pre + ".status-never-forgotten", n, 5, "ServiceInfo::set_status call sites")
